@@ -224,11 +224,53 @@ fn main() {
         }
         "C02" => {
             use skv_verif::engine_crash::{crash_prop, Judge};
-            run_model(vec![(crash_prop("C02", Judge::Acked, 5, false), 60, 1500), (crash_prop("C02", Judge::Acked, 0, false), 8, 300), (crash_prop("C02", Judge::Acked, 5, true), 12, 300)], tier, replay)
+            use skv_verif::engine_sched::{sched_prop, Flavor};
+            let findings = Findings::load();
+            let main = crash_prop("C02", Judge::Acked, 5, false);
+            let sched = sched_prop("C02", Flavor::Crash);
+            if let Some(p) = replay {
+                let text = std::fs::read_to_string(&p).unwrap_or_default();
+                if text.contains("\"actors\"") {
+                    std::process::exit(replay_one(&sched, &p, &findings));
+                }
+                std::process::exit(replay_one(&main, &p, &findings));
+            }
+            let seed = seed_from_env();
+            let t0 = Instant::now();
+            let mut rep = Report::default();
+            run_replays(&main, &findings, &mut rep);
+            run_replays(&sched, &findings, &mut rep);
+            rep.merge(run_prop(&main, cases_for(tier, 60, 1500), seed, 0, &findings));
+            rep.merge(run_prop(&crash_prop("C02", Judge::Acked, 0, false), cases_for(tier, 8, 300), seed, 1, &findings));
+            rep.merge(run_prop(&crash_prop("C02", Judge::Acked, 5, true), cases_for(tier, 12, 300), seed, 2, &findings));
+            rep.merge(run_prop(&sched, cases_for(tier, 1500, 30000), seed, 3, &findings));
+            let rule = format!("{} || SCHEDULE STREAM ({})", main.rule, sched.rule);
+            finish(main.id, main.level, tier, seed, &rule, &main.assumptions, &rep, t0.elapsed().as_secs_f64(), &findings)
         }
         "C03" => {
             use skv_verif::engine_crash::{crash_prop, Judge};
-            run_model(vec![(crash_prop("C03", Judge::Prefix, 5, false), 60, 1500), (crash_prop("C03", Judge::Prefix, 0, false), 8, 300), (crash_prop("C03", Judge::Prefix, 5, true), 12, 300)], tier, replay)
+            use skv_verif::engine_sched::{sched_prop, Flavor};
+            let findings = Findings::load();
+            let main = crash_prop("C03", Judge::Prefix, 5, false);
+            let sched = sched_prop("C03", Flavor::Crash);
+            if let Some(p) = replay {
+                let text = std::fs::read_to_string(&p).unwrap_or_default();
+                if text.contains("\"actors\"") {
+                    std::process::exit(replay_one(&sched, &p, &findings));
+                }
+                std::process::exit(replay_one(&main, &p, &findings));
+            }
+            let seed = seed_from_env();
+            let t0 = Instant::now();
+            let mut rep = Report::default();
+            run_replays(&main, &findings, &mut rep);
+            run_replays(&sched, &findings, &mut rep);
+            rep.merge(run_prop(&main, cases_for(tier, 60, 1500), seed, 0, &findings));
+            rep.merge(run_prop(&crash_prop("C03", Judge::Prefix, 0, false), cases_for(tier, 8, 300), seed, 1, &findings));
+            rep.merge(run_prop(&crash_prop("C03", Judge::Prefix, 5, true), cases_for(tier, 12, 300), seed, 2, &findings));
+            rep.merge(run_prop(&sched, cases_for(tier, 1500, 30000), seed, 3, &findings));
+            let rule = format!("{} || SCHEDULE STREAM ({})", main.rule, sched.rule);
+            finish(main.id, main.level, tier, seed, &rule, &main.assumptions, &rep, t0.elapsed().as_secs_f64(), &findings)
         }
         "C15" => {
             use skv_verif::engine_sched::{sched_prop, Flavor};
@@ -348,6 +390,10 @@ fn main() {
         "C17S" => {
             std::env::set_var("VERIF_JOBS", "1");
             run_model(vec![(skv_verif::engine_sched::stress17_prop("C17", 300, true), 10, 40)], tier, replay)
+        }
+        "CRASHS" => {
+            use skv_verif::engine_sched::{sched_prop, Flavor};
+            run_model(vec![(sched_prop("C02", Flavor::Crash), 1500, 30000)], tier, replay)
         }
         "C11S" => {
             use skv_verif::engine_sched::{sched_prop, Flavor};
